@@ -797,7 +797,7 @@ func (w *world) direct(q string, arg any, f func(r ring.ReadRing) answer, fr *ri
 	}
 }
 
-func (w *world) shard(id, size, lb int, nowUnix int64, q *queryCtx, fr *ring.Ring) {
+func (w *world) shard(id, size, lb int, nowUnix int64, q *queryCtx, fr *ring.Ring, gated bool) {
 	ident := fmt.Sprintf("t-%d", id)
 	var prev ring.ReadRing
 	if lb == 0 {
@@ -829,7 +829,7 @@ func (w *world) shard(id, size, lb int, nowUnix int64, q *queryCtx, fr *ring.Rin
 			w.prevLb[[3]int{id, size, lb}] = ls
 		}
 	}
-	ev := xs(map[string]any{"e": "S", "id": id, "size": size, "L": lb, "now": w.rc.rel(nowUnix), "hit": hit,
+	ev := xs(map[string]any{"e": "S", "id": id, "size": size, "L": lb, "now": w.rc.rel(nowUnix), "hit": hit, "g": gated,
 		"self": self, "fself": fs == ring.ReadRing(fr), "lm": l.M, "fm": f.M}, l.X, f.X)
 	must(w.rc.ti.Write(ev))
 	w.rc.res.Cases++
@@ -919,18 +919,18 @@ func (w *world) batch(full bool) {
 	for id := 1; id <= numIdent; id++ {
 		for _, size := range sizesMenu {
 			if sel(30) {
-				w.shard(id, size, 0, 0, q, fr)
+				w.shard(id, size, 0, 0, q, fr, false)
 			}
 			for _, lb := range lbs {
 				if sel(20) {
-					w.shard(id, size, lb, bnow+offs[w.rnd.Intn(len(offs))], q, fr)
+					w.shard(id, size, lb, bnow+offs[w.rnd.Intn(len(offs))], q, fr, false)
 				}
 			}
 		}
 	}
 	// the same look-back key again at another time (moves inside / outside the validity window)
 	for i := 0; i < 6; i++ {
-		w.shard(1+w.rnd.Intn(numIdent), sizesMenu[1+w.rnd.Intn(3)], lbs[0], bnow+offs[w.rnd.Intn(len(offs))], q, fr)
+		w.shard(1+w.rnd.Intn(numIdent), sizesMenu[1+w.rnd.Intn(3)], lbs[0], bnow+offs[w.rnd.Intn(len(offs))], q, fr, false)
 	}
 	if sel(10) {
 		id := 1 + w.rnd.Intn(numIdent)
@@ -1555,6 +1555,125 @@ func concurrent(t *testing.T, rc *recorder, h int, seed int64, hc histCfg, round
 }
 
 // ---------------------------------------------------------------------------------------------
+// gated reader (hook H5): the two critical sections of ShuffleShard / ShuffleShardWithLookback
+// with an update delivered in between - RingClient.tla QueryPlain / QueryLb, Update, Fill
+// ---------------------------------------------------------------------------------------------
+
+// gated: a reader computes a shard (cache miss) and is parked at the yield point between the
+// computation and the cache fill; the driver pushes one update through the store and waits for
+// quiescence; the reader is released (it fills, or must refuse to fill, the cache); then the same
+// query is asked again on the long-lived client and compared with a fresh client.
+func gated(t *testing.T, rc *recorder, h int, seed int64, hc histCfg, kinds []string) {
+	synctest.Test(t, func(t *testing.T) {
+		rnd := rand.New(rand.NewSource(seed))
+		if rc.epoch == 0 {
+			rc.epoch = time.Now().Unix()
+		}
+		rc.reset(h, hc.za, hc.rf, hc.lru, false)
+		w := newWorld(rc, rnd, hc.za, hc.rf, hc.lru)
+		defer w.close()
+		var armed atomic.Bool
+		var parked atomic.Bool
+		release := make(chan struct{})
+		prevHook := ring.VerifYield
+		ring.VerifYield = func(point string) {
+			if point != "ring.ShuffleShard.computed" && point != "ring.ShuffleShardWithLookback.computed" {
+				return
+			}
+			if armed.CompareAndSwap(true, false) {
+				parked.Store(true)
+				<-release
+			}
+		}
+		defer func() { ring.VerifYield = prevHook }()
+		d := w.bulk(4 + rnd.Intn(3))
+		w.push(d)
+		w.logUpdate("bulk", d, "U")
+		w.batch(false)
+		for ri, kind := range kinds {
+			w.tick()
+			id := 1 + rnd.Intn(numIdent)
+			size := sizesMenu[1+rnd.Intn(3)] // 1..3: a real walk
+			lb := 0
+			if ri%2 == 1 {
+				lb = lookbackMenu[rnd.Intn(len(lookbackMenu))]
+			}
+			nowUnix := w.now() - int64(rnd.Intn(3))
+			ident := fmt.Sprintf("t-%d", id)
+			call := func(r *ring.Ring) ring.ReadRing {
+				if lb == 0 {
+					return r.ShuffleShard(ident, size)
+				}
+				return r.ShuffleShardWithLookback(ident, size, time.Duration(lb)*time.Second, time.Unix(nowUnix, 0))
+			}
+			// make sure the reader misses
+			w.long.CleanupShuffleShardCache(ident)
+			must(rc.ti.Write(map[string]any{"e": "X", "id": id}))
+			q := w.queryCtx()
+			fr, stop := w.fresh()
+			var fs ring.ReadRing
+			f0 := guard(func() answer {
+				fs = call(fr)
+				return answer{M: rc.members(fs), X: rc.summary(fs, q, 1)}
+			})
+			fself := fs == ring.ReadRing(fr)
+			stop()
+			// first critical section: lookup + computation, parked before the fill
+			var got ring.ReadRing
+			done := make(chan struct{})
+			parked.Store(false)
+			armed.Store(true)
+			go func() {
+				defer close(done)
+				defer func() { _ = recover() }()
+				got = call(w.long)
+			}()
+			synctest.Wait()
+			if !parked.Load() { // the reader did not reach the yield point (cache hit?): nothing to interleave
+				armed.Store(false)
+				<-done
+				continue
+			}
+			must(rc.ti.Write(map[string]any{"e": "GQ", "id": id, "size": size, "L": lb, "now": rc.rel(nowUnix), "fself": fself, "fm": f0.M}))
+			// the update is delivered while the reader is parked
+			nd, k := w.mutate(kind)
+			w.push(nd)
+			w.logUpdate(k, nd, "U")
+			// second critical section
+			release <- struct{}{}
+			<-done
+			synctest.Wait()
+			self := got == ring.ReadRing(w.long)
+			l := guard(func() answer {
+				if got == nil {
+					return answer{X: "PANIC in reader"}
+				}
+				return answer{M: rc.members(got), X: rc.summary(got, q, 1)}
+			})
+			must(rc.ti.Write(xs(map[string]any{"e": "GF", "id": id, "size": size, "L": lb, "self": self, "lm": l.M, "fm": f0.M}, l.X, f0.X)))
+			rc.res.Cases++
+			rc.short++
+			// the same query again: served from the cache iff the fill was accepted
+			if got != nil && !self {
+				if lb == 0 {
+					w.prevPlain[[2]int{id, size}] = got
+				} else {
+					w.prevLb[[3]int{id, size, lb}] = got
+				}
+			}
+			fr, stop = w.fresh()
+			q = w.queryCtx()
+			w.shard(id, size, lb, nowUnix, q, fr, true)
+			w.shard(id, size, lb, nowUnix, q, fr, false)
+			stop()
+			if ri%3 == 2 {
+				w.batch(false)
+			}
+		}
+	})
+}
+
+// ---------------------------------------------------------------------------------------------
 
 func TestRecord(t *testing.T) {
 	ti, tp, recs := os.Getenv("VERIF_TRACE_I"), os.Getenv("VERIF_TRACE_P"), os.Getenv("VERIF_RECS")
@@ -1605,6 +1724,14 @@ func TestRecord(t *testing.T) {
 			h++
 			hc := histCfg{za: rnd.Intn(2) == 0, rf: 1 + rnd.Intn(3), lru: 0}
 			concurrent(t, rc, h, seed*1000003+int64(h), hc, abs.EnvInt("VERIF_ROUNDS", 12), 4)
+		}
+		for i := 0; i < abs.EnvInt("VERIF_GATED", 2); i++ {
+			h++
+			hc := histCfg{za: rnd.Intn(2) == 0, rf: 1 + rnd.Intn(3), lru: 0}
+			// every topology-changing kind, with heartbeat / state / equal controls in between
+			kinds := []string{"token", "heartbeat_all", "remove", "equal", "add", "state", "addr", "zone", "hbstate", "reg", "ro_both", "heartbeat", "replace", "ro_time", "ro_flag", "multi"}
+			rnd.Shuffle(len(kinds), func(a, b int) { kinds[a], kinds[b] = kinds[b], kinds[a] })
+			gated(t, rc, h, seed*1000003+int64(h), hc, kinds)
 		}
 		res.AddExtra("histories", h)
 	}()
